@@ -15,6 +15,20 @@ def _rec_ids(x):
     return ",".join(str(int(v)) for v in x.r)
 
 
+def _rec_mask(x):
+    # grouped modify broadcasts the function's result over the group's rows; a string longer than 15 bytes
+    # would crash NumPy 2.0.2's ndarray.repeat (environment defect), so the ids are packed into an int
+    m = 0
+    for v in x.r:
+        m |= 1 << int(v)
+    return m
+
+
+def _parse_mask(m):
+    m = int(m)
+    return [2 * i for i in range(64) if m >> i & 1]
+
+
 def _parse_ids(s):
     s = str(s)
     return [2 * int(t) for t in s.split(",")] if s else []
@@ -65,8 +79,8 @@ def execute(fr, a, pals, op, helper=None):
             # ("disjoint index sets covering every row") is indifferent to it, so it is not shipped
             rec["sets"] = [s for s in rec["sets"] if s]
         elif op == "gmodify":
-            out = d.group_by(*by).modify(g=_rec_ids)
-            rec["rowgroups"] = [_parse_ids(s) for s in np.asarray(out["g"]).tolist()]
+            out = d.group_by(*by).modify(g=_rec_mask)
+            rec["rowgroups"] = [_parse_mask(s) for s in np.asarray(out["g"]).tolist()]
             rec["out"] = frames.observe(out.unselect("g"), pals)
         elif op == "helper":
             rec["a"]["helper"] = helper
@@ -122,6 +136,19 @@ def run(ctx):
                     opcount[op] = opcount.get(op, 0) + 1
                     ctx.count((repr(fr), repr(a["by"]), op, helper, pals["k"].name, pals["j"].name),
                               frames.nontrivial(fr, a["by"]))
+    # record -> validate: larger random frames (4..24 rows) so that size-dependent sort kernels are reached
+    for _ in range(150 if quick else 1500):
+        n = rng.randint(4, 24)
+        fr = frames.random_frame(rng, n)
+        a = {"op": "group", "by": rng.choice([["k"], ["j"], ["k", "j"], ["j", "k"]])}
+        pals = frames.choose_palettes(rng, fr, ["k", "j"])
+        pals["r"] = frames.ROWID
+        for op in OPS:
+            rec = execute(fr, a, pals, op, rng.choice(HELPERS) if op == "helper" else None)
+            records.append(rec)
+            meta.append(pals)
+            opcount["big:" + op] = opcount.get("big:" + op, 0) + 1
+            ctx.count((repr(fr), repr(a["by"]), op, "big"), True)
     bad = ctx.validate("GroupOpsTrace", records)
     for i, clause in bad:
         rec, pals = records[i], meta[i]
